@@ -236,6 +236,23 @@ class _PE:
                 if not isinstance(node.ctx, ast.Load):
                     return node
                 base = node.value
+
+                def int_of(e_):
+                    if e_ is None:
+                        return None
+                    if isinstance(e_, ast.Constant) and isinstance(e_.value, int) and not isinstance(e_.value, bool):
+                        return e_.value
+                    if isinstance(e_, ast.UnaryOp) and isinstance(e_.op, ast.USub) and isinstance(e_.operand, ast.Constant) and isinstance(e_.operand.value, int) \
+                            and not isinstance(e_.operand.value, bool):
+                        return -e_.operand.value
+                    return 'x'
+                if isinstance(node.slice, ast.UnaryOp) and isinstance(int_of(node.slice), int):
+                    node.slice = ast.copy_location(ast.Constant(value=int_of(node.slice)), node.slice)
+                # (a, b, c)[:-1] / [1:] of a display written in place: the shorter display
+                if isinstance(base, (ast.Tuple, ast.List)) and isinstance(node.slice, ast.Slice) and node.slice.step is None and \
+                        not any(isinstance(e_, ast.Starred) for e_ in base.elts) and int_of(node.slice.lower) != 'x' and int_of(node.slice.upper) != 'x':
+                    pe.changed += 1
+                    return ast.copy_location(type(base)(elts=base.elts[int_of(node.slice.lower):int_of(node.slice.upper)], ctx=ast.Load()), node)
                 if isinstance(base, ast.Name) and base.id in pe.tables:
                     base = pe.tables[base.id]
                 elif isinstance(base, ast.Tuple) and isinstance(node.slice, ast.Constant) and isinstance(node.slice.value, int) and not isinstance(node.slice.value, bool) \
@@ -259,6 +276,56 @@ class _PE:
             def visit_Call(self, node):
                 self.generic_visit(node)
                 f = node.func
+                fn_ = ast.unparse(f) if isinstance(f, (ast.Name, ast.Attribute)) else ''
+                base_ = fn_.split('.')[-1]
+                root_ = fn_.split('.')[0]
+                if root_ not in pe.locals and not node.keywords:
+                    # functional idioms of the standard library, spelled out as comprehensions (same items, same order, same laziness class for the analysis)
+                    #   map(attrgetter('a'), X) -> (e.a for e in X);  map(itemgetter(k), X) -> (e[k] for e in X);  map(lambda e: B, X) -> (B for e in X)
+                    if fn_ == 'map' and len(node.args) == 2:
+                        g_ = node.args[0]
+                        var = '_m%d' % (getattr(node, 'lineno', 0) * 100 + getattr(node, 'col_offset', 0))
+                        elt = None
+                        if isinstance(g_, ast.Call) and ast.unparse(g_.func).split('.')[-1] == 'attrgetter' and len(g_.args) == 1 and isinstance(g_.args[0], ast.Constant) \
+                                and isinstance(g_.args[0].value, str) and g_.args[0].value.isidentifier():
+                            elt = ast.Attribute(value=ast.Name(id=var, ctx=ast.Load()), attr=g_.args[0].value, ctx=ast.Load())
+                        elif isinstance(g_, ast.Call) and ast.unparse(g_.func).split('.')[-1] == 'itemgetter' and len(g_.args) == 1 and isinstance(g_.args[0], ast.Constant):
+                            elt = ast.Subscript(value=ast.Name(id=var, ctx=ast.Load()), slice=g_.args[0], ctx=ast.Load())
+                        elif isinstance(g_, ast.Lambda) and len(g_.args.args) == 1 and not g_.args.defaults and not g_.args.kwonlyargs and not g_.args.vararg:
+                            var = g_.args.args[0].arg
+                            elt = g_.body
+                        if elt is not None:
+                            pe.changed += 1
+                            return ast.copy_location(ast.GeneratorExp(elt=elt, generators=[ast.comprehension(target=ast.Name(id=var, ctx=ast.Store()), iter=node.args[1],
+                                                                                                              ifs=[], is_async=0)]), node)
+                    #   chain.from_iterable(G) -> (y for x in G for y in x)
+                    flat = None
+                    if fn_ in ('chain.from_iterable', 'itertools.chain.from_iterable') and len(node.args) == 1:
+                        flat = node.args[0]
+                    #   reduce(iadd / add / concat, G, []) and sum(G, []) -> [y for x in G for y in x]
+                    as_list = False
+                    if base_ == 'reduce' and len(node.args) == 3 and ast.unparse(node.args[0]).split('.')[-1] in ('iadd', 'add', 'concat', 'iconcat') and \
+                            isinstance(node.args[2], ast.List) and not node.args[2].elts:
+                        flat, as_list = node.args[1], True
+                    if fn_ == 'sum' and len(node.args) == 2 and isinstance(node.args[1], ast.List) and not node.args[1].elts:
+                        flat, as_list = node.args[0], True
+                    if flat is not None:
+                        k_ = getattr(node, 'lineno', 0) * 100 + getattr(node, 'col_offset', 0)
+                        xo, xi = '_fo%d' % k_, '_fi%d' % k_
+                        gens = None
+                        if isinstance(flat, ast.GeneratorExp) and len(flat.generators) == 1 and not flat.generators[0].ifs:
+                            # (E for v in X) flattened: y for v in X for y in E
+                            gens = [flat.generators[0], ast.comprehension(target=ast.Name(id=xi, ctx=ast.Store()), iter=flat.elt, ifs=[], is_async=0)]
+                        else:
+                            gens = [ast.comprehension(target=ast.Name(id=xo, ctx=ast.Store()), iter=flat, ifs=[], is_async=0),
+                                    ast.comprehension(target=ast.Name(id=xi, ctx=ast.Store()), iter=ast.Name(id=xo, ctx=ast.Load()), ifs=[], is_async=0)]
+                        pe.changed += 1
+                        cls_ = ast.ListComp if as_list else ast.GeneratorExp
+                        return ast.copy_location(cls_(elt=ast.Name(id=xi, ctx=ast.Load()), generators=gens), node)
+                    #   list(<generator expression>) -> [..]
+                    if fn_ == 'list' and len(node.args) == 1 and isinstance(node.args[0], ast.GeneratorExp):
+                        pe.changed += 1
+                        return ast.copy_location(ast.ListComp(elt=node.args[0].elt, generators=node.args[0].generators), node)
                 # self.__dict__.get('field') / vars(self).get('field'): the field, tolerating objects restored from older pickles (normal form: the field)
                 if isinstance(f, ast.Attribute) and f.attr == 'get' and not node.keywords and len(node.args) in (1, 2) and isinstance(node.args[0], ast.Constant) \
                         and isinstance(node.args[0].value, str) and node.args[0].value.isidentifier() \
@@ -390,6 +457,30 @@ class _PE:
                     return ast.copy_location(ast.Constant(value=not node.operand.value), node)
                 return node
 
+            def visit_BoolOp(self, node):
+                self.generic_visit(node)
+                # constant operands: `True or x` is True, `False or x` is x, `True and x` is x, `False and x` is False (left to right, so nothing is skipped
+                # that would have been evaluated)
+                vals = list(node.values)
+                out_ = []
+                for i_, v_ in enumerate(vals):
+                    if isinstance(v_, ast.Constant) and isinstance(v_.value, (bool, type(None))):
+                        truth = bool(v_.value)
+                        if isinstance(node.op, ast.Or) and truth or isinstance(node.op, ast.And) and not truth:
+                            out_.append(v_)
+                            break            # short-circuits here: the rest is never evaluated
+                        if i_ < len(vals) - 1:
+                            continue          # neutral element that is not the value of the whole expression: dropped
+                    out_.append(v_)
+                if len(out_) != len(vals):
+                    pe.changed += 1
+                    if not out_:
+                        return ast.copy_location(ast.Constant(value=isinstance(node.op, ast.And)), node)
+                    if len(out_) == 1:
+                        return out_[0]
+                    node.values = out_
+                return node
+
             def visit_Compare(self, node):
                 self.generic_visit(node)
                 if len(node.ops) == 1 and isinstance(node.left, ast.Constant) and isinstance(node.comparators[0], ast.Constant):
@@ -490,6 +581,34 @@ class _PE:
                 stores = [x for x in ast.walk(self.fn) if isinstance(x, ast.Name) and x.id == flag and isinstance(x.ctx, (ast.Store, ast.Del))]
                 loads = [x for x in ast.walk(self.fn) if isinstance(x, ast.Name) and x.id == flag and isinstance(x.ctx, ast.Load)]
                 jumps = [x for s_ in b.body for x in ast.walk(s_) if isinstance(x, (ast.Continue, ast.Break))]
+                # the flag set at the end of every branch of the iteration: if c: ..; flag = E  else: ..; flag = False
+                def tails(blk):
+                    """[(block, index)] of the assignments to the flag that end every path through blk, or None when some path ends otherwise."""
+                    if not blk:
+                        return None
+                    l_ = blk[-1]
+                    if isinstance(l_, ast.Assign) and len(l_.targets) == 1 and isinstance(l_.targets[0], ast.Name) and l_.targets[0].id == flag:
+                        return [(blk, len(blk) - 1)]
+                    if isinstance(l_, ast.If) and l_.orelse:
+                        a_, b_ = tails(l_.body), tails(l_.orelse)
+                        if a_ is not None and b_ is not None:
+                            return a_ + b_
+                    return None
+                tl = tails(b.body) if not (isinstance(last, ast.Assign) and len(last.targets) == 1 and isinstance(last.targets[0], ast.Name) and last.targets[0].id == flag) else None
+                if tl is not None and len(tl) >= 2 and len(stores) == 1 + len(tl) and len(loads) == 1 and not jumps:
+                    for blk_, idx_ in tl:
+                        st_ = blk_[idx_]
+                        if isinstance(st_.value, ast.Constant) and st_.value.value is True:
+                            blk_[idx_] = ast.copy_location(ast.Pass(), st_)
+                        elif isinstance(st_.value, ast.Constant) and st_.value.value is False:
+                            blk_[idx_] = ast.copy_location(ast.Break(), st_)
+                        else:
+                            blk_[idx_] = ast.copy_location(ast.If(test=ast.UnaryOp(op=ast.Not(), operand=st_.value), body=[ast.Break()], orelse=[]), st_)
+                    new_loop = ast.copy_location(ast.While(test=ast.Constant(value=True), body=b.body, orelse=[]), b)
+                    ast.fix_missing_locations(new_loop)
+                    out[i:i + 2] = [new_loop]
+                    self.changed += 1
+                    continue
                 if isinstance(last, ast.Assign) and len(last.targets) == 1 and isinstance(last.targets[0], ast.Name) and last.targets[0].id == flag \
                         and len(stores) == 2 and len(loads) == 1 and not jumps:
                     brk = ast.If(test=ast.UnaryOp(op=ast.Not(), operand=last.value), body=[ast.Break()], orelse=[])
@@ -524,9 +643,45 @@ class _PE:
             i += 1
         return out or [ast.Pass()]
 
+    @staticmethod
+    def _leading_walrus(test):
+        """(NamedExpr, test with the name in its place) when the first thing the test evaluates is `name := E`: the whole test, the left operand of a
+        comparison, the operand of `not`, the first operand of and / or."""
+        if isinstance(test, ast.NamedExpr) and isinstance(test.target, ast.Name):
+            return test, ast.copy_location(ast.Name(id=test.target.id, ctx=ast.Load()), test)
+        if isinstance(test, ast.Compare):
+            r = _PE._leading_walrus(test.left)
+            if r:
+                return r[0], ast.copy_location(ast.Compare(left=r[1], ops=test.ops, comparators=test.comparators), test)
+        if isinstance(test, ast.UnaryOp) and isinstance(test.op, ast.Not):
+            r = _PE._leading_walrus(test.operand)
+            if r:
+                return r[0], ast.copy_location(ast.UnaryOp(op=test.op, operand=r[1]), test)
+        if isinstance(test, ast.BoolOp):
+            r = _PE._leading_walrus(test.values[0])
+            if r:
+                return r[0], ast.copy_location(ast.BoolOp(op=test.op, values=[r[1]] + test.values[1:]), test)
+        return None
+
     def stmt(self, st):
         if isinstance(st, (ast.FunctionDef, ast.AsyncFunctionDef, ast.ClassDef)):
             return [st]
+        # while (x := E) <cond>: BODY      ->      while True: x = E; if not <cond on x>: break; BODY        (the loop rotation then gives the pre-tested form)
+        # if (x := E) <cond>: ..           ->      x = E; if <cond on x>: ..
+        if isinstance(st, (ast.While, ast.If)):
+            w = self._leading_walrus(st.test)
+            if w is not None and not (isinstance(st, ast.While) and st.orelse):
+                named, rest = w
+                assign = ast.copy_location(ast.Assign(targets=[ast.Name(id=named.target.id, ctx=ast.Store())], value=named.value), st)
+                self.changed += 1
+                if isinstance(st, ast.If):
+                    st.test = rest
+                    ast.fix_missing_locations(assign)
+                    return self.stmt(assign) + self.stmt(st)
+                brk = ast.copy_location(ast.If(test=ast.UnaryOp(op=ast.Not(), operand=rest), body=[ast.Break()], orelse=[]), st)
+                new_loop = ast.copy_location(ast.While(test=ast.Constant(value=True), body=[assign, brk] + st.body, orelse=[]), st)
+                ast.fix_missing_locations(new_loop)
+                return self.stmt(new_loop)
         # expressions of the statement itself (not of nested blocks)
         for fld, val in ast.iter_fields(st):
             if fld in ('body', 'orelse', 'finalbody', 'handlers'):
@@ -733,7 +888,48 @@ def _unmemo(fn):
         accounted = 1 + 1 + 1 + len(loads)       # the binding, the test, the store, the loads
         if len(occ) != accounted or not loads or any(isinstance(x, ast.Name) and x.id == D for x in ast.walk(the_if.body[-1].value)):
             continue
-        # the key must not be reassigned between the test and the loads other than where the test is re-run: require a simple name or tuple of names/attributes
+        # the key must determine the value: everything the computation reads that varies from one evaluation to the next (loop variables, parameters of an
+        # enclosing nested function, locals assigned in loops) has to be part of the key - as the same attribute chain. `memo[t.guard] = evaluate(t)` is
+        # NOT a function of its key, and is left alone (the rules then see an evaluation that is conditional on the memo).
+        def chains(node):
+            out_ = set()
+
+            def visit(n_):
+                if isinstance(n_, (ast.Attribute, ast.Name)):
+                    base = n_
+                    while isinstance(base, ast.Attribute):
+                        base = base.value
+                    if isinstance(base, ast.Name):
+                        out_.add((base.id, ast.unparse(n_)))
+                        return
+                for c_ in ast.iter_child_nodes(n_):
+                    visit(c_)
+            visit(node)
+            return out_
+        key_expr = the_if.test.left
+        if isinstance(key_expr, ast.Name):
+            kdefs = [n for n in ast.walk(fn) if isinstance(n, ast.Assign) and len(n.targets) == 1 and isinstance(n.targets[0], ast.Name) and n.targets[0].id == key_expr.id]
+            if len(kdefs) != 1:
+                continue
+            key_expr = kdefs[0].value
+        key_chains = {c for _, c in chains(key_expr)}
+        varying = set()
+        for n in ast.walk(fn):
+            if isinstance(n, (ast.For, ast.comprehension)):
+                varying |= {x.id for x in ast.walk(n.target) if isinstance(x, ast.Name)}
+            if isinstance(n, (ast.FunctionDef, ast.Lambda)) and n is not fn:
+                varying |= {a.arg for a in n.args.args + n.args.kwonlyargs}
+            if isinstance(n, (ast.For, ast.While)):
+                varying |= {x.id for s_ in n.body for x in ast.walk(s_) if isinstance(x, ast.Name) and isinstance(x.ctx, ast.Store)}
+        own = {x.id for s_ in the_if.body for x in ast.walk(s_) if isinstance(x, ast.Name) and isinstance(x.ctx, ast.Store)}
+        own |= {x.id for s_ in the_if.body for g_ in ast.walk(s_) if isinstance(g_, ast.comprehension) for x in ast.walk(g_.target) if isinstance(x, ast.Name)}
+        bad_dep = False
+        for s_ in the_if.body:
+            for base, chain in chains(s_):
+                if base in varying and base not in own and base != D and chain not in key_chains and not any(chain.startswith(k_ + '.') for k_ in key_chains):
+                    bad_dep = True
+        if bad_dep:
+            continue
         tmp = D + '__memo'
         parents = {}
         for n in ast.walk(fn):
@@ -767,11 +963,80 @@ def _unmemo(fn):
     return n_changed
 
 
+def _fold_default_flags(tree):
+    """Options that are off unless the caller of the constructor asks for them: a class-level `X = False / None` whose only instance writes are
+    `self.X = ..` in __init__ under a test of a constructor parameter. The properties are stated for objects built the documented way, so in the other
+    methods of the class `self.X` is read as that constant (the branches it selects are then folded). A changed default changes the constant."""
+    n = 0
+    for cls in [c for c in ast.walk(tree) if isinstance(c, ast.ClassDef)]:
+        consts = {}
+        for st in cls.body:
+            if isinstance(st, ast.Assign) and len(st.targets) == 1 and isinstance(st.targets[0], ast.Name) and isinstance(st.value, ast.Constant) and \
+                    (st.value.value is None or st.value.value is False) and st.targets[0].id.startswith('_'):
+                consts[st.targets[0].id] = st.value
+        if not consts:
+            continue
+        init = next((m for m in cls.body if isinstance(m, ast.FunctionDef) and m.name == '__init__'), None)
+        params = {a.arg for a in (init.args.args + init.args.kwonlyargs)} if init is not None else set()
+        defaults = {}
+        if init is not None:
+            a = init.args
+            for p_, d_ in list(zip(a.args[len(a.args) - len(a.defaults):], a.defaults)) + [(p_, d_) for p_, d_ in zip(a.kwonlyargs, a.kw_defaults) if d_ is not None]:
+                if isinstance(d_, ast.Constant):
+                    defaults[p_.arg] = d_.value
+        parent = {}
+        for x in ast.walk(tree):
+            for c in ast.iter_child_nodes(x):
+                parent[id(c)] = x
+        for X in list(consts):
+            okk = init is not None
+            for x in ast.walk(tree):
+                if isinstance(x, ast.Attribute) and x.attr == X and isinstance(x.ctx, (ast.Store, ast.Del)):
+                    # allowed: inside __init__ of this class, on self, under an `if` testing a parameter whose default makes the test false
+                    inside = False
+                    up = parent.get(id(x))
+                    guarded = False
+                    while up is not None:
+                        if isinstance(up, ast.If):
+                            t = up.test
+                            nm = t.id if isinstance(t, ast.Name) else (t.left.id if isinstance(t, ast.Compare) and isinstance(t.left, ast.Name) and len(t.ops) == 1 and
+                                                                       isinstance(t.ops[0], ast.IsNot) and isinstance(t.comparators[0], ast.Constant) and
+                                                                       t.comparators[0].value is None else None)
+                            if nm in params and nm in defaults and (defaults[nm] is None or defaults[nm] is False) and any(x is y for s_ in up.body for y in ast.walk(s_)):
+                                guarded = True
+                        if up is init:
+                            inside = True
+                        up = parent.get(id(up))
+                    if not (inside and guarded):
+                        okk = False
+                if isinstance(x, ast.Call) and isinstance(x.func, ast.Name) and x.func.id in ('setattr', 'delattr') and len(x.args) >= 2 and \
+                        isinstance(x.args[1], ast.Constant) and x.args[1].value == X:
+                    okk = False
+            if not okk:
+                continue
+            for m in cls.body:
+                if not isinstance(m, ast.FunctionDef) or m is init:
+                    continue
+                me = m.args.args[0].arg if m.args.args else None
+                for x in ast.walk(m):
+                    for fld, val in ast.iter_fields(x):
+                        vals = val if isinstance(val, list) else [val]
+                        for i_, v_ in enumerate(vals):
+                            if isinstance(v_, ast.Attribute) and v_.attr == X and isinstance(v_.ctx, ast.Load) and isinstance(v_.value, ast.Name) and v_.value.id == me:
+                                new = ast.copy_location(ast.Constant(value=consts[X].value), v_)
+                                if isinstance(val, list):
+                                    val[i_] = new
+                                else:
+                                    setattr(x, fld, new)
+                                n += 1
+    return n
+
+
 def partial_eval_module(tree):
     """Rewrite every function of the module in place; returns the number of rewrites."""
     tables = module_tables(tree)
     loggers = module_loggers(tree)
-    total = 0
+    total = _fold_default_flags(tree)
     for fn in [n for n in ast.walk(tree) if isinstance(n, (ast.FunctionDef, ast.AsyncFunctionDef))]:
         total += _unmemo(fn)
         pe = _PE(fn, tables)
